@@ -478,3 +478,7 @@ async fn reload_config(
         Ok(config_file)
     }
 }
+
+#[cfg(feature = "verif")]
+#[path = "verif/config_hooks.rs"]
+pub(crate) mod verif_hooks;
